@@ -4,6 +4,7 @@ use crate::engine::{Ctx, Outcome};
 
 pub mod c10;
 pub mod c14;
+pub mod c16;
 
 pub struct Prop {
     pub check: fn(&Ctx),
@@ -19,6 +20,10 @@ pub fn lookup(id: &str) -> Option<Prop> {
         "C14" => Prop {
             check: c14::check,
             replay: c14::replay,
+        },
+        "C16" => Prop {
+            check: c16::check,
+            replay: c16::replay,
         },
         _ => return None,
     })
